@@ -26,9 +26,11 @@ class Scen(CompScenario):
         if self.basic:
             self.caller("peek", self.dut.peek)
             self.caller("clear", self.dut.clear)
+            if c.get("peek2"):  # a second, independent caller of peek: simultaneous calls of one method
+                self.caller("peek2", self.dut.peek)
         self.q: deque = deque()
         self.tag = 0
-        self.ports = ["write", "read"] + (["peek", "clear"] if self.basic else [])
+        self.ports = ["write", "read"] + (["peek", "clear"] if self.basic else []) + (["peek2"] if self.basic and c.get("peek2") else [])
         return self.top
 
     # ---- stimulus -------------------------------------------------------------------------
@@ -47,6 +49,8 @@ class Scen(CompScenario):
         stim["read.en"] = int(rng.random() < pr)
         if self.basic:
             stim["peek.en"] = int(rng.random() < pp)
+            if self.cfg.get("peek2"):
+                stim["peek2.en"] = int(rng.random() < max(pp, 0.5))
             # flush placement bias: right after the model became full or empty, or together with a write
             pc_eff = pc
             if pc > 0 and (len(self.q) in (0, self.cfg["depth"])):
@@ -66,7 +70,7 @@ class Scen(CompScenario):
         q = self.q
         level = len(q)
         nonempty, notfull = level > 0, level < depth
-        exp_ready = {"write": notfull, "read": nonempty, "peek": nonempty, "clear": True}
+        exp_ready = {"write": notfull, "read": nonempty, "peek": nonempty, "peek2": nonempty, "clear": True}
         done = {}
         for p in self.ports:
             en = stim.get(f"{p}.en", 0)
@@ -82,7 +86,13 @@ class Scen(CompScenario):
                         f"{p}: en={en} ready={exp_ready[p]} done={done[p]} level={level}/{depth}", port=p)
             if en and exp_ready[p] and not done[p]:
                 self.hit("blocked_though_ready")  # scheduling (C07) business, not a queue violation
-        for p in ("read", "peek"):
+        if done.get("peek") is not None and done.get("peek2") is not None and stim.get("peek.en") and stim.get("peek2.en") and nonempty:
+            # the statement quantifies over simultaneous calls: peek is ready for every caller while the queue is
+            # non-empty, so two callers of peek in one cycle are both served (peek does not consume anything)
+            self.expect(done["peek"] and done["peek2"], "simultaneous-peeks-not-served",
+                        f"two callers request peek at level {level}: served {done['peek']}/{done['peek2']}", port="peek")
+            self.hit("two_peek_callers_served")
+        for p in ("read", "peek", "peek2"):
             if done.get(p):  # what an executed read / peek returned (the statement speaks of returned elements)
                 got = tuple(obs[f"{p}.o.{f}"] for f in self.fields)
                 self.expect(got == q[0], "data-mismatch", f"{p} returned {got}, head is {q[0]} (level {level})", port=p)
@@ -136,7 +146,7 @@ class Prop(PropBase):
             "write pointer mod depth, executed call set); non-trivial = a call executed at level 0, 1, depth-1 or "
             "depth, or clear ran")
     expected_cov = ["write_refused_at_full", "read_refused_at_empty", "read_and_write_same_cycle", "clear_with_write",
-                    "clear_with_read", "clear_at_full", "wrapped_around", "became_full", "became_empty"]
+                    "clear_with_read", "clear_at_full", "wrapped_around", "became_full", "became_empty", "two_peek_callers_served"]
     real = ["transactron.lib.fifo.BasicFifo", "transactron.lib.connectors.FIFO", "transactron.lib.allocators.CircularAllocator",
             "transactron.lib.adapters.AdapterTrans", "TransactionManager + scheduler", "amaranth.lib.fifo.SyncFIFO", "amaranth pysim"]
     stubs = ["cycle driver (stimulus)", "deque reference model"]
@@ -156,7 +166,7 @@ class Prop(PropBase):
             layout.append(["aux", rng.choice([1, 3, 8])])
         cycles = rng.randint(80, 400 if big else 220)
         kinds = ["random", "fill", "drain", "pingpong", "idle"] + (["flush", "flush"] if cls == "BasicFifo" else [])
-        return {"cls": cls, "depth": depth, "layout": layout, "cycles": cycles,
+        return {"cls": cls, "depth": depth, "layout": layout, "cycles": cycles, "peek2": int(cls == "BasicFifo" and rng.random() < 0.4),
                 "sched": rng.choice(["eager", "eager", "rr"]), "plan": make_plan(rng, cycles, kinds)}
 
     def make(self, cfg):
@@ -166,7 +176,7 @@ class Prop(PropBase):
         return {"cls": cfg["cls"], "port": (viol.get("info") or {}).get("port")}
 
     def cfg_signature(self, cfg):
-        return [cfg["cls"], cfg["depth"], cfg["layout"], cfg["sched"]]
+        return [cfg["cls"], cfg["depth"], cfg["layout"], cfg["sched"], cfg.get("peek2", 0)]
 
     def shrink_cfg(self, cfg):
         if cfg["depth"] > 1:
